@@ -379,6 +379,13 @@ func LoadFindings() []Finding {
 	if err := json.Unmarshal(b, &fs); err != nil {
 		Infra("known_findings.json: %v", err)
 	}
+	// development aid: extra entries proposed but not yet committed
+	if extra := os.Getenv("VERIF_EXTRA_FINDINGS"); extra != "" {
+		var more []Finding
+		if eb, err := os.ReadFile(extra); err == nil && json.Unmarshal(eb, &more) == nil {
+			fs = append(fs, more...)
+		}
+	}
 	return fs
 }
 
